@@ -129,10 +129,17 @@ class Z3Export:
                             self.axioms.append(v >= 1 - t * t / 2)
                             self.axiom_names.add('one_sub_sq_div_two_le_cos')
                         self.axioms.append(z3.Implies(t == 0, v == 1))
+                        pi = self.real('pi')
+                        self.axioms.append(z3.Implies(z3.And(2 * t > -pi, 2 * t < pi), v > 0))
+                        self.axiom_names.add('cos_pos_of_mem_Ioo')
                     if 'sin' in d and 'cos' in d and not d.get('linked'):
                         d['linked'] = True
                         self.axioms.append(d['sin'] * d['sin'] + d['cos'] * d['cos'] == 1)
                         self.axiom_names.add('sin_sq_add_cos_sq')
+                elif f == 'tan':
+                    from .terms import fn as _fn
+                    sn, cs = self.tr(_fn('sin', n.args[0])), self.tr(_fn('cos', n.args[0]))
+                    self.axioms.append(v * cs == sn)
                 elif f == 'arccos':
                     pi = self.real('pi')
                     self.axioms.append(v >= 0)
@@ -140,6 +147,7 @@ class Z3Export:
                     self.axioms.append((t == 1) == (v == 0))
                     self.axioms.append((t == -1) == (v == pi))
                     self.axioms.append((t > 0) == (v < pi / 2))
+                    self.axioms.append(t >= 1 - v * v / 2)
                     self.axiom_names.add('arccos_range')
                     arg = n.args[0]
                     if arg.op == 'fn' and arg.extra == 'cos':
@@ -181,6 +189,314 @@ class Z3Export:
             raise EngineError("z3 export: bool op %s" % op)
 
 
+class PolyExport:
+    """canonical export: literals become polynomial (in)equalities over the generators of an Algebra;
+    atom generators get their defining axioms (instantiated only for atoms that occur)."""
+
+    def __init__(self, alg, small_angle=True):
+        self.alg = alg
+        self.gv = {}
+        self.axioms = []
+        self.axiom_names = set()
+        self.small_angle = small_angle
+        self.vars = {}        # input symbol name -> z3 var (for models)
+        self.uf_decls = {}
+        self._trig = {}
+        self._lit_cache = {}
+
+    def gen(self, g):
+        v = self.gv.get(g)
+        if v is not None:
+            return v
+        alg = self.alg
+        node = alg.node_of_gen.get(g)
+        if node is not None and node.op == 'v':
+            v = z3.Real(node.extra)
+            self.vars[node.extra] = v
+            self.gv[g] = v
+            self._rule_axioms(g, v)
+            if node.extra == 'pi':
+                self.axioms.append(v > z3.RealVal('3.14159265358979'))
+                self.axioms.append(v < z3.RealVal('3.14159265358980'))
+                self.axiom_names.add('pi_bounds')
+            return v
+        v = z3.Real('g%d' % g)
+        self.gv[g] = v
+        self._rule_axioms(g, v)
+        if g in alg.den_poly:
+            self.axioms.append(v == self.poly(alg.den_poly[g]))
+            return v
+        info = alg.atom_info.get(g)
+        if info is not None:
+            self._atom_axioms(g, v, info)
+        elif node is not None and node.op == 'ite':
+            c = self.lit(node.args[0])
+            a = self.value(alg.rf(node.args[1]))
+            b = self.value(alg.rf(node.args[2]))
+            self.axioms.append(v == z3.If(c, a, b))
+        return v
+
+    def _rule_axioms(self, g, v):
+        """the oriented equations used by the normaliser are facts the solver must also know (they were
+        eliminated from the canonical polynomials)"""
+        alg = self.alg
+        info = alg.atom_info.get(g)
+        is_atom_rule = info is not None and info[0] in ('sqrt', 'abs', 'sin', 'cos')
+        if g in alg.rules_lin:
+            self.axioms.append(v == self.poly(alg.rules_lin[g]))
+        if g in alg.rules_sq and not (is_atom_rule and info[0] in ('sqrt', 'abs')):
+            self.axioms.append(v * v == self.poly(alg.rules_sq[g]))
+        for (a, b), rhs in alg.rules_prod.items():
+            if g in (a, b):
+                other = b if g == a else a
+                if other in self.gv:
+                    self.axioms.append(self.gv[a] * self.gv[b] == self.poly(rhs))
+
+    def poly(self, p):
+        terms = []
+        for m, c in p.items():
+            t = z3.RealVal(str(c.numerator)) / z3.RealVal(str(c.denominator)) if c.denominator != 1 \
+                else z3.RealVal(str(c.numerator))
+            for g, e in m:
+                v = self.gen(g)
+                for _ in range(e):
+                    t = t * v
+            terms.append(t)
+        if not terms:
+            return z3.RealVal(0)
+        return z3.Sum(terms) if len(terms) > 1 else terms[0]
+
+    def den(self, d):
+        t = None
+        for g, e in d.items():
+            v = self.gen(g)
+            for _ in range(e):
+                t = v if t is None else t * v
+        return t
+
+    def value(self, rf):
+        """z3 term equal to N/D (an auxiliary variable when D is not empty)"""
+        num, den = rf
+        n = self.poly(num)
+        if not den:
+            return n
+        key = ('val', frozenset(num.items()), frozenset(den.items()))
+        v = self._lit_cache.get(key)
+        if v is None:
+            v = z3.Real('q!%d' % len(self._lit_cache))
+            self._lit_cache[key] = v
+            self.axioms.append(v * self.den(den) == n)
+        return v
+
+    def _atom_axioms(self, g, v, info):
+        fname, argrfs = info
+        A = self.axioms
+        if fname.startswith('uf:'):
+            args = [self.value(r) for r in argrfs]
+            f = self.uf_decls.get((fname, len(args)))
+            if f is None:
+                f = z3.Function(fname[3:], *([z3.RealSort()] * (len(args) + 1)))
+                self.uf_decls[(fname, len(args))] = f
+            A.append(v == f(*args))
+            return
+        if fname == 'arctan2':
+            pi = self.gen(self.alg.gen_for_var(T.PI))
+            A.append(v <= pi)
+            A.append(v >= -pi)
+            return
+        if len(argrfs) != 1:
+            return
+        num, den = argrfs[0]
+        if fname == 'sqrt':
+            A.append(v >= 0)
+            if den:
+                A.append(v * v * self.den(den) == self.poly(num))
+            else:
+                A.append(v * v == self.poly(num))
+                # sum of squares: every square summand is bounded by the root
+                if len(num) > 1 and all(c > 0 and all(e % 2 == 0 for _, e in m) for m, c in num.items()):
+                    for m, c in num.items():
+                        rn, rd = math.isqrt(c.numerator), math.isqrt(c.denominator)
+                        if rn * rn == c.numerator and rd * rd == c.denominator and m:
+                            t = z3.RealVal(rn) / z3.RealVal(rd)
+                            for gg, e in m:
+                                for _ in range(e // 2):
+                                    t = t * self.gen(gg)
+                            A.append(t <= v)
+                            A.append(-v <= t)
+                    self.axiom_names.add('abs_le_sqrt_sum_sq')
+            self.axiom_names.add('sqrt_def')
+            return
+        t = self.value(argrfs[0])
+        if fname == 'abs':
+            A.append(v == z3.If(t >= 0, t, -t))
+            return
+        if fname in ('sin', 'cos'):
+            key = (p_key_(num), frozenset(den.items()))
+            d = self._trig.setdefault(key, {})
+            d[fname] = v
+            A.append(v <= 1)
+            A.append(v >= -1)
+            if fname == 'sin':
+                if self.small_angle:
+                    A.append(z3.If(v >= 0, v, -v) <= z3.If(t >= 0, t, -t))
+                    self.axiom_names.add('abs_sin_le_abs')
+                pi = self.gen(self.alg.gen_for_var(T.PI))
+                A.append(z3.Implies(z3.And(t > 0, t < pi), v > 0))
+                A.append(z3.Implies(t == 0, v == 0))
+                self.axiom_names.add('sin_pos_of_pos_of_lt_pi')
+            else:
+                if self.small_angle:
+                    A.append(v >= 1 - t * t / 2)
+                    self.axiom_names.add('one_sub_sq_div_two_le_cos')
+                A.append(z3.Implies(t == 0, v == 1))
+                pi = self.gen(self.alg.gen_for_var(T.PI))
+                A.append(z3.Implies(z3.And(2 * t > -pi, 2 * t < pi), v > 0))
+                self.axiom_names.add('cos_pos_of_mem_Ioo')
+                # the partner sine
+                sg = self.alg.sincos.get(key, {}).get('sin')
+                if sg is not None:
+                    self.gen(sg)
+            if 'sin' in d and 'cos' in d and not d.get('linked'):
+                d['linked'] = True
+                A.append(d['sin'] * d['sin'] + d['cos'] * d['cos'] == 1)
+                self.axiom_names.add('sin_sq_add_cos_sq')
+            return
+        if fname == 'arccos':
+            pi = self.gen(self.alg.gen_for_var(T.PI))
+            A.append(v >= 0)
+            A.append(v <= pi)
+            A.append((t == 1) == (v == 0))
+            A.append((t == -1) == (v == pi))
+            A.append((t > 0) == (v < pi / 2))
+            A.append(t >= 1 - v * v / 2)
+            self.axiom_names.add('arccos_range')
+            # arccos(cos x) = x on [0, pi]
+            if not den and p_is_monomial_(num):
+                (m, c), = num.items()
+                if c == 1 and len(m) == 1 and m[0][1] == 1:
+                    inner = self.alg.atom_info.get(m[0][0])
+                    if inner is not None and inner[0] == 'cos':
+                        x = self.value(inner[1][0])
+                        A.append(z3.Implies(z3.And(x >= 0, x <= pi), v == x))
+                        self.axiom_names.add('arccos_cos')
+            return
+        if fname == 'arcsin':
+            pi = self.gen(self.alg.gen_for_var(T.PI))
+            A.append(v >= -pi / 2)
+            A.append(v <= pi / 2)
+            return
+        if fname == 'floor':
+            k = z3.Int('k!%d' % g)
+            A.append(v == z3.ToReal(k))
+            A.append(v <= t)
+            A.append(t < v + 1)
+            self.axiom_names.add('floor_def')
+            return
+
+    def lit(self, sb):
+        r = self._lit_cache.get(sb.id)
+        if r is not None:
+            return r
+        op = sb.op
+        if op == 'T':
+            r = z3.BoolVal(True)
+        elif op == 'F':
+            r = z3.BoolVal(False)
+        elif op in ('<', '<=', '=='):
+            c = self.alg.canon_cmp(op, sb.args[0], sb.args[1])
+            if c is True or c is False:
+                r = z3.BoolVal(c)
+            else:
+                cop, p = c
+                e = self.poly(p)
+                r = (e < 0) if cop == '<' else ((e <= 0) if cop == '<=' else (e == 0))
+        elif op == 'not':
+            r = z3.Not(self.lit(sb.args[0]))
+        elif op == 'and':
+            r = z3.And(*[self.lit(a) for a in sb.args])
+        elif op == 'or':
+            r = z3.Or(*[self.lit(a) for a in sb.args])
+        elif op == 'bv':
+            r = z3.Bool(sb.extra)
+        else:
+            raise EngineError("PolyExport: bool op %s" % op)
+        self._lit_cache[sb.id] = r
+        return r
+
+    def model_env(self, model):
+        env = {}
+        for name, v in self.vars.items():
+            env[name] = _z3num(model.eval(v, model_completion=True))
+        return complete_env(self.alg, env)[0]
+
+
+def complete_env(alg, env, all_signs=False):
+    """input symbols eliminated by rewrite rules (x -> P, x^2 -> P) do not occur in the exported problem;
+    reconstruct their values from the rule.  Returns a list of candidate assignments (sign choices)."""
+    import itertools
+    env = dict(env)
+    missing_lin, missing_sq = [], []
+    for g, node in alg.node_of_gen.items():
+        if node is None or node.op != 'v' or node.extra in env:
+            continue
+        if g in alg.rules_lin:
+            missing_lin.append((g, node.extra))
+        elif g in alg.rules_sq:
+            missing_sq.append((g, node.extra))
+        elif node.extra != 'pi':
+            env[node.extra] = Fraction(0)
+
+    def val_of(p, e):
+        tot = 0.0
+        for m, c in p.items():
+            t = float(c)
+            for gg, ee in m:
+                nd = alg.node_of_gen.get(gg)
+                if nd is None or nd.op != 'v':
+                    raise KeyError(gg)
+                if nd.extra == 'pi' and 'pi' not in e:
+                    t *= math.pi ** ee
+                else:
+                    t *= float(e[nd.extra]) ** ee
+            tot += t
+        return tot
+    outs = []
+    signs = list(itertools.product([1, -1], repeat=min(len(missing_sq), 3))) if missing_sq else [()]
+    for sg in signs:
+        e = dict(env)
+        ok = True
+        for _ in range(3):
+            for g, name in missing_sq:
+                if name in e:
+                    continue
+                try:
+                    v = val_of(alg.rules_sq[g], e)
+                except KeyError:
+                    continue
+                i = [n for _, n in missing_sq].index(name)
+                e[name] = (sg[i] if i < len(sg) else 1) * math.sqrt(max(0.0, v))
+            for g, name in missing_lin:
+                if name in e:
+                    continue
+                try:
+                    e[name] = val_of(alg.rules_lin[g], e)
+                except KeyError:
+                    continue
+        outs.append(e)
+        if not all_signs:
+            break
+    return outs
+
+
+def p_key_(p):
+    return frozenset(p.items())
+
+
+def p_is_monomial_(p):
+    return len(p) == 1
+
+
 def _squares_of_sum(t):
     """if t is syntactically x1*x1 + x2*x2 + ... return [x1, x2, ...] else None"""
     out = []
@@ -220,11 +536,24 @@ def _z3num(val):
         return Fraction(0)
 
 
-def z3_check(hyps, goal, timeout_s=10.0, small_angle=True):
-    """is  /\\hyps => goal  valid?  -> ('proved'|'cex'|'unknown', env_or_reason, smt2 text)"""
+def _export(alg, hyps, goal, small_angle=True):
+    if alg is not None:
+        try:
+            ex = PolyExport(alg, small_angle=small_angle)
+            hs = [ex.lit(h) for h in hyps]
+            g = ex.lit(goal) if goal is not None else None
+            return ex, hs, g, ex.model_env
+        except TooLarge:
+            pass
     ex = Z3Export(small_angle=small_angle)
     hs = [ex.tr(h) for h in hyps]
-    g = ex.tr(goal)
+    g = ex.tr(goal) if goal is not None else None
+    return ex, hs, g, lambda m: _model_env(m, ex)
+
+
+def z3_check(hyps, goal, timeout_s=10.0, small_angle=True, alg=None):
+    """is  /\\hyps => goal  valid?  -> ('proved'|'cex'|'unknown', env_or_reason, solver)"""
+    ex, hs, g, menv = _export(alg, hyps, goal, small_angle)
     s = z3.Solver()
     s.set('timeout', int(timeout_s * 1000))
     for a in ex.axioms:
@@ -240,16 +569,15 @@ def z3_check(hyps, goal, timeout_s=10.0, small_angle=True):
         return 'proved', sorted(ex.axiom_names), None
     if r == z3.sat:
         try:
-            return 'cex', _model_env(s.model(), ex), None
+            return 'cex', menv(s.model()), None
         except Exception as e:  # pragma: no cover
             return 'unknown', 'model extraction failed: %r' % (e,), None
     return 'unknown', s.reason_unknown(), s
 
 
-def z3_sat(constraints, timeout_s=5.0):
+def z3_sat(constraints, timeout_s=5.0, alg=None):
     """-> ('sat', env) | ('unsat', None) | ('unknown', reason)"""
-    ex = Z3Export()
-    cs = [ex.tr(c) for c in constraints]
+    ex, cs, _, menv = _export(alg, constraints, None)
     s = z3.Solver()
     s.set('timeout', int(timeout_s * 1000))
     for a in ex.axioms:
@@ -263,7 +591,7 @@ def z3_sat(constraints, timeout_s=5.0):
     if r == z3.unsat:
         return 'unsat', None
     if r == z3.sat:
-        return 'sat', _model_env(s.model(), ex)
+        return 'sat', menv(s.model())
     return 'unknown', s.reason_unknown()
 
 
@@ -372,6 +700,13 @@ def ring_prove_eq(alg, a, b, eq_hyps=(), check_cert=True):
                     raise EngineError("z3 rejected a ring certificate (engine bug)")
                 return RingResult('proved', 'ring-nf' + ('+z3cert' if r == 'ok' else '(cert too large for z3: %s)' % r))
             return RingResult('proved', 'ring-nf(no rules needed)')
+        # N == 0 <=> N*d == 0 for a denominator symbol d of the goal (d != 0 is a safety obligation of the path):
+        # completes the rewriting where relations are products (sin(b/2) cos(b/2) = sin(b)/2, ...)
+        cand = [g for g in den if g not in alg.den_poly]
+        for g in cand[:6]:
+            nf2, cert2 = alg.reduce(p_mul(nf, {((g, 1),): Fraction(1)}), want_cert=False)
+            if not nf2:
+                return RingResult('proved', 'ring-nf(x nonzero denominator %s)' % alg.gen_name(g))
         if eq_hyps:
             hp = []
             for (l, r) in eq_hyps:
